@@ -468,7 +468,9 @@ class TabularCPD(DiscreteFactor):
         factor.variables = self.variables.copy()
         factor.cardinality = self.cardinality.copy()
         factor.values = compat_fns.copy(self.values)
-        factor.state_names = self.state_names.copy()
+        factor.state_names = {
+            var: list(names) for var, names in self.state_names.items()
+        }
         factor.name_to_no = self.name_to_no.copy()
         factor.no_to_name = self.no_to_name.copy()
         return factor
